@@ -290,3 +290,7 @@ pub open spec fn job_sends(job: &Job, pre: &Env, post: &Env, p: Priority, ctls: 
 
 // exactly one entry was appended to the log
 pub open spec fn pushed1(pre: &Env, post: &Env) -> bool { post.log@ == pre.log@.push(post.log@[pre.log@.len() as int]) }
+
+// wait-for-end tickets are parked only while a process is running (a ticket parked with nothing running would wait for the end of a run
+// that may never start: "wait-for-end resolves at once when nothing is running")
+pub open spec fn waiters_ok(cs: &CommandState, on_end: Seq<Flag>) -> bool { on_end.len() > 0 ==> *cs is Running }
